@@ -1989,3 +1989,241 @@ Section ScanGrammar.
       exists v'. apply parse_complete; [exact Ht'|rewrite Hd'; exact Hd].
   Qed.
 End ScanGrammar.
+
+(* ------------------------------------------------------------------------------------------------ *)
+(* allocation: the meter of Json.v is at most 1024 bytes per character of input, for every input *)
+
+Lemma slen_cons (c : N) (s : str) : slen (c :: s) = 1 + slen s.
+Proof. unfold slen. cbn [length]. lia. Qed.
+
+Lemma slen_nil : slen [] = 0.
+Proof. reflexivity. Qed.
+
+Lemma slen_app (a b : str) : slen (a ++ b) = slen a + slen b.
+Proof. unfold slen. rewrite app_length. lia. Qed.
+
+Lemma flush_ws_slen (s : str) : slen (flush_ws s) <= slen s.
+Proof. pose proof (flush_ws_length s). unfold slen. lia. Qed.
+
+Lemma span_literal_slen (s a b : str) : span_literal s = (a, b) -> slen s = slen a + slen b.
+Proof. intro H. apply span_literal_split in H. subst. apply slen_app. Qed.
+
+Ltac sl := repeat rewrite slen_cons in *; repeat rewrite slen_nil in *.
+
+(* string loop: 20 bytes per consumed character pay for the pushes (16), the hex temporaries and a later copy of the result (4) *)
+Definition string_bound (bs : bool) (s : str) : Prop :=
+  match string_loop false bs s with
+  | Ok (o, rest) => string_cost false bs s + 4 * slen o + 20 * slen rest <= 20 * slen s
+  | _ => string_cost false bs s <= 20 * slen s
+  end.
+
+Lemma string_bound_n (n : nat) : forall s bs, (length s <= n)%nat -> string_bound bs s.
+Proof.
+  unfold string_bound. induction n as [|n IH]; intros s bs Hlen.
+  - destruct s; [|cbn in Hlen; lia]. destruct bs; cbn; lia.
+  - destruct s as [|c r]; [destruct bs; cbn; lia|]. cbn [length] in Hlen.
+    destruct bs.
+    + (* after a backslash *)
+      destruct (simple_escape c) as [d|] eqn:Ese.
+      * rewrite (sl_escape _ _ _ _ Ese). cbn [string_cost]. rewrite Ese.
+        pose proof (IH r false ltac:(lia)) as B. sl. unfold CHAR_COST.
+        destruct (string_loop false false r) as [[o rest]| |]; cbn [push_char]; sl; lia.
+      * destruct (c =? ch_u) eqn:Eu.
+        2:{ rewrite (sl_bad_escape _ _ _ Ese Eu). cbn [string_cost]. rewrite Ese, Eu. lia. }
+        apply N.eqb_eq in Eu. subst c. rewrite sl_u. cbn [string_cost]. rewrite Ese.
+        change (ch_u =? ch_u) with true. cbn iota.
+        destruct r as [|h1 [|h2 [|h3 [|h4 r4]]]]; try (sl; lia).
+        cbn [hex4x]. unfold HEX_TMP, CHAR_COST. cbn [length] in Hlen. sl.
+        destruct (hex4 h1 h2 h3 h4) as [code|]; [|lia].
+        destruct (is_surrogate code); cbn [negb].
+        -- destruct r4 as [|b1 r5]; [sl; lia|]. sl.
+           destruct (b1 =? ch_bslash); cbn [negb]; [|lia].
+           destruct r5 as [|u1 r6]; [sl; lia|]. sl.
+           destruct (u1 =? ch_u); cbn [negb]; [|lia].
+           destruct r6 as [|g1 [|g2 [|g3 [|g4 r10]]]]; try (sl; lia). sl.
+           destruct (hex4 g1 g2 g3 g4) as [code2|]; [|lia].
+           destruct (decode_pair code code2) as [ch|]; [|lia].
+           cbn [length] in Hlen. pose proof (IH r10 false ltac:(lia)) as B.
+           destruct (string_loop false false r10) as [[o rest]| |]; cbn [push_char]; sl; lia.
+        -- pose proof (IH r4 false ltac:(lia)) as B.
+           destruct (string_loop false false r4) as [[o rest]| |]; cbn [push_char]; sl; lia.
+    + rewrite sl_plain. cbn [string_cost]. sl. unfold CHAR_COST.
+      destruct (c =? ch_bslash).
+      * pose proof (IH r true ltac:(lia)) as B.
+        destruct (string_loop false true r) as [[o rest]| |]; lia.
+      * destruct (c =? ch_dq); [sl; lia|].
+        destruct (unescapedb c); [|lia].
+        pose proof (IH r false ltac:(lia)) as B.
+        destruct (string_loop false false r) as [[o rest]| |]; cbn [push_char]; sl; lia.
+Qed.
+
+Lemma string_bound_all (s : str) (bs : bool) : string_bound bs s.
+Proof. apply (string_bound_n (length s)). lia. Qed.
+
+Section Allocation.
+  Variable F : Type.
+  Variable fparse : str -> option F.
+  Variable maxd : N.
+
+  Notation pv := (parse_value F fparse false maxd).
+  Notation al := (array_loop F fparse false maxd).
+  Notation ol := (object_loop F fparse false maxd).
+  Notation cv := (cost_value F fparse false maxd).
+  Notation ca := (cost_array F fparse false maxd).
+  Notation co := (cost_object F fparse false maxd).
+
+  Lemma cv_eq (f : nat) (d : N) (s : str) :
+    cv (S f) d s =
+    match flush_ws s with
+    | [] => 0
+    | c :: r =>
+      if c =? ch_dq then STRING_CAP + string_cost false false r
+      else if c =? ch_lbrack then
+        if d =? maxd then 0 else ARRAY_CAP * VALUE_SIZE + ca f (d + 1) true r
+      else if c =? ch_lbrace then
+        if d =? maxd then 0 else OBJECT_CAP * MEMBER_SIZE + co f (d + 1) false true r
+      else LIT_BASE + CHAR_COST * (1 + slen (fst (span_literal r)))
+    end.
+  Proof. reflexivity. Qed.
+
+  Lemma ca_eq (f : nat) (d : N) (first : bool) (s : str) :
+    ca (S f) d first s =
+    match flush_ws s with
+    | [] => 0
+    | c :: r =>
+      if c =? ch_rbrack then 0
+      else
+        cv f d (c :: r) +
+        match pv f d (c :: r) with
+        | Ok (v, s2) =>
+          4 * VALUE_SIZE +
+          match flush_ws s2 with
+          | [] => 0
+          | c' :: r' => if c' =? ch_comma then ca f d false r' else 0
+          end
+        | _ => 0
+        end
+    end.
+  Proof. reflexivity. Qed.
+
+  Lemma co_eq (f : nat) (d : N) (tc empty : bool) (s : str) :
+    co (S f) d tc empty s =
+    match flush_ws s with
+    | [] => 0
+    | c :: r =>
+      if c =? ch_rbrace then 0
+      else if c =? ch_comma then
+        if tc then 0 else if empty then 0 else co f d true empty r
+      else if negb (member_sep_ok false empty tc) then 0
+      else if negb (c =? ch_dq) then 0
+      else
+        STRING_CAP + string_cost false false r +
+        match string_loop false false r with
+        | Ok (k, s2) =>
+          4 * slen k +
+          match flush_ws s2 with
+          | [] => 0
+          | c2 :: r2 =>
+            if negb (c2 =? ch_colon) then 0
+            else
+              cv f d (flush_ws r2) +
+              match pv f d (flush_ws r2) with
+              | Ok (v, s5) => 4 * MEMBER_SIZE + co f d false false s5
+              | _ => 0
+              end
+          end
+        | _ => 0
+        end
+    end.
+  Proof. reflexivity. Qed.
+
+  (* a value leaves 128 bytes per value for the push into its parent *)
+  Definition bound_v (f : nat) : Prop :=
+    forall d s, d <= maxd ->
+    match pv f d s with
+    | Ok (v, rest) => cv f d s + 128 + 1024 * slen rest <= 1024 * slen s
+    | _ => cv f d s <= 1024 * slen s
+    end.
+  Definition bound_a (f : nat) : Prop :=
+    forall d first s, d <= maxd ->
+    match al f d first s with
+    | Ok (vs, rest) => ca f d first s + 1024 * slen rest <= 1024 * slen s
+    | _ => ca f d first s <= 1024 * slen s
+    end.
+  Definition bound_o (f : nat) : Prop :=
+    forall d tc empty s, d <= maxd ->
+    match ol f d tc empty s with
+    | Ok (ms, rest) => co f d tc empty s + 1024 * slen rest <= 1024 * slen s
+    | _ => co f d tc empty s <= 1024 * slen s
+    end.
+
+  Lemma bound_all (f : nat) : bound_v f /\ bound_a f /\ bound_o f.
+  Proof.
+    induction f as [|f (IHv & IHa & IHo)].
+    - repeat split; intro; intros; cbn; lia.
+    - split; [|split].
+      + intros d s Hd. rewrite pv_eq, cv_eq.
+        assert ((maxd <? d) = false) as -> by nbool.
+        pose proof (flush_ws_slen s) as Hl.
+        destruct (flush_ws s) as [|c r] eqn:Ef; [lia|]. sl.
+        destruct (c =? ch_dq).
+        { pose proof (string_bound_all r false) as B. unfold string_bound in B. unfold STRING_CAP.
+          destruct (string_loop false false r) as [[o rest]| |]; lia. }
+        destruct (c =? ch_lbrack).
+        { destruct (d =? maxd) eqn:Edm; [lia|]. b2p.
+          pose proof (IHa (d + 1) true r ltac:(lia)) as B. unfold ARRAY_CAP, VALUE_SIZE.
+          destruct (al f (d + 1) true r) as [[vs rest]| |]; try lia.
+          unfold dec_depth. assert ((d + 1 =? 0) = false) as -> by nbool. lia. }
+        destruct (c =? ch_lbrace).
+        { destruct (d =? maxd) eqn:Edm; [lia|]. b2p.
+          pose proof (IHo (d + 1) false true r ltac:(lia)) as B. unfold OBJECT_CAP, MEMBER_SIZE.
+          destruct (ol f (d + 1) false true r) as [[ms rest]| |]; try lia.
+          unfold dec_depth. assert ((d + 1 =? 0) = false) as -> by nbool. lia. }
+        unfold parse_literal. destruct (span_literal r) as [lit rest] eqn:Esp. cbn [fst].
+        apply span_literal_slen in Esp. unfold LIT_BASE, CHAR_COST.
+        destruct (str_eqb (c :: lit) s_null); [lia|].
+        destruct (str_eqb (c :: lit) s_true); [lia|].
+        destruct (str_eqb (c :: lit) s_false); [lia|].
+        destruct (number_ok false (c :: lit)); [|lia].
+        destruct (fparse (c :: lit)); lia.
+      + intros d first s Hd. rewrite al_eq, ca_eq.
+        pose proof (flush_ws_slen s) as Hl.
+        destruct (flush_ws s) as [|c r] eqn:Ef; [lia|]. sl.
+        destruct (c =? ch_rbrack); [destruct first; sl; lia|].
+        pose proof (IHv d (c :: r) Hd) as B. sl. unfold VALUE_SIZE.
+        destruct (pv f d (c :: r)) as [[v s2]| |]; try lia.
+        pose proof (flush_ws_slen s2) as Hl2.
+        destruct (flush_ws s2) as [|c' r'] eqn:Ef2; [lia|]. sl.
+        destruct (c' =? ch_comma).
+        { pose proof (IHa d false r' Hd) as B2.
+          destruct (al f d false r') as [[vs rest]| |]; lia. }
+        destruct (c' =? ch_rbrack); lia.
+      + intros d tc empty s Hd. rewrite ol_eq, co_eq.
+        pose proof (flush_ws_slen s) as Hl.
+        destruct (flush_ws s) as [|c r] eqn:Ef; [lia|]. sl.
+        destruct (c =? ch_rbrace); [destruct tc; sl; lia|].
+        destruct (c =? ch_comma).
+        { destruct tc; [lia|]. destruct empty; [lia|].
+          pose proof (IHo d true false r Hd) as B.
+          destruct (ol f d true false r) as [[ms rest]| |]; lia. }
+        destruct (negb (member_sep_ok false empty tc)); [lia|].
+        destruct (negb (c =? ch_dq)); [lia|].
+        pose proof (string_bound_all r false) as B. unfold string_bound in B. unfold STRING_CAP, MEMBER_SIZE.
+        destruct (string_loop false false r) as [[k s2]| |]; try lia.
+        pose proof (flush_ws_slen s2) as Hl2.
+        destruct (flush_ws s2) as [|c2 r2] eqn:Ef2; [lia|]. sl.
+        destruct (negb (c2 =? ch_colon)); [lia|].
+        pose proof (flush_ws_slen r2) as Hl3.
+        pose proof (IHv d (flush_ws r2) Hd) as B2.
+        destruct (pv f d (flush_ws r2)) as [[v s5]| |]; try lia.
+        pose proof (IHo d false false s5 Hd) as B3.
+        destruct (ol f d false false s5) as [[ms rest]| |]; lia.
+  Qed.
+
+  (* for EVERY input: total bytes requested by Value::parse_max_depth <= 1024 * number of characters (<= bytes) supplied *)
+  Theorem parse_cost_linear (s : str) : parse_cost F fparse false maxd s <= 1024 * slen s.
+  Proof.
+    unfold parse_cost. pose proof (proj1 (bound_all (fuel_for s)) 0 s ltac:(lia)) as B.
+    destruct (pv (fuel_for s) 0 s) as [[v rest]| |]; lia.
+  Qed.
+End Allocation.
